@@ -815,3 +815,11 @@ silent('s-cache3-sample-before-read', ['C16', 'C17'], 'the mtime is sampled befo
 # round 13: end-of-file DEDENTs through the per-line helper (rt13-C07)
 fire('tok5-eof-dedents-through-helper', ['C07', 'C09'], ['TOK-5'], 'the end-of-file DEDENT loop is replaced by the per-line dedent helper, whose tokens carry the position of the last matched token',
      (TOK, "    for indent in indents[1:]:\n        indents.pop()\n        yield PythonToken(DEDENT, '', end_pos, '')\n", "    yield from dedent_if_necessary(0)\n"))
+
+# round 13: a per-element value carried into the next iteration (rt13-C14)
+fire('loop1-alias-carried-over', ['C14'], ['LOOP-1'], 'ImportName._dotted_as_names: `alias = None` hoisted in front of the loop, the else arm removed - the alias of one module carries over to the next',
+     (PYTREE, "        for as_name in as_names:\n            if as_name.type == 'dotted_as_name':\n                alias = as_name.children[2]\n                as_name = as_name.children[0]\n            else:\n                alias = None\n",
+      "        alias = None\n        for as_name in as_names:\n            if as_name.type == 'dotted_as_name':\n                alias = as_name.children[2]\n                as_name = as_name.children[0]\n"))
+silent('s-loop1-default-inside-loop', ['C14'], 'ImportName._dotted_as_names: the default is assigned at the top of every iteration instead of in an else arm',
+       (PYTREE, "        for as_name in as_names:\n            if as_name.type == 'dotted_as_name':\n                alias = as_name.children[2]\n                as_name = as_name.children[0]\n            else:\n                alias = None\n",
+        "        for as_name in as_names:\n            alias = None\n            if as_name.type == 'dotted_as_name':\n                alias = as_name.children[2]\n                as_name = as_name.children[0]\n"))
